@@ -57,6 +57,12 @@ def generate(R, tier):
                 files.append(bad)
         yield {"stream": "history", "files": files, "unreadable": [k for k in range(len(files)) if R.random() < 0.05],
                "threaded": tier == "thorough" and i % 5 == 0}
+        if i % 40 == 7:
+            # load() WITHOUT a path - the bundled p0f.fp - after / between loads of other files (and after failed ones): it replaces the contents
+            # like any other successful load
+            sh = c09.load_shipped()
+            fs = [R.choice(pool), sh, R.choice(files), sh, R.choice(pool)][R.randrange(2):]
+            yield {"stream": "default-path", "files": fs, "unreadable": [], "default": [k for k, f in enumerate(fs) if f is sh], "sparse": True}
         if i % 20 == 0:
             base = R.choice(pool)
             for k in range(len(base) + 1):
@@ -179,8 +185,29 @@ def impl_init():
             v["http_req"] = "depends on the payload asked about"
         return v
 
+    from pyp0f.impersonate import impersonate_mtu
+
+    def imp_problem(d, dump, labels):
+        """What impersonation BY LABEL sees through database=d: for every [mtu] label any version of this history has had, the MTU drawn must be
+        one the database holds under that label NOW, and DatabaseError exactly when it holds none."""
+        for lh in sorted(labels):
+            want = sorted({r["sig"] for r in (dump["mtu"] or []) if r["label"]["dump"] == lh})
+            if any(not 100 <= w <= 65535 for w in want):
+                continue
+            try:
+                out = impersonate_mtu(PKT.copy(), raw_label=bytes.fromhex(lh).decode(), database=d)
+                got = dict(out.getlayer("TCP").options).get("MSS") + 40
+            except DatabaseError:
+                got = None
+            except Exception:
+                continue
+            if (not want and got is not None) or (want and got not in want):
+                return [bytes.fromhex(lh).decode(), got, want]
+        return None
+
     def impl(c):
         db = Database()
+        mtu_labels = set()
         versions = {0: U.dump_db(db)}
         if fp_view(db) != ["DatabaseError"] or not all(x is True for x in section_views(db).values()):
             return [[{"fingerprint_before_any_load_did_not_raise_DatabaseError": [fp_view(db), section_views(db)]}, []]]
@@ -249,6 +276,8 @@ def impl_init():
             try:
                 if (i - 1) in c["unreadable"]:
                     db.load(os.path.join(work, "no-such-dir", "x.fp"))
+                elif (i - 1) in c.get("default", []):
+                    db.load()
                 else:
                     db.load(path)
                 res = {"ok": True}
@@ -267,6 +296,10 @@ def impl_init():
             snap()
             if fp_view(db) != expected_view(after):
                 res["fingerprint_sees_other_contents_than_the_database_holds"] = [fp_view(db), expected_view(after)]
+            mtu_labels.update(r["label"]["dump"] for r in (after["mtu"] or []))
+            ip = imp_problem(db, after, mtu_labels)
+            if ip is not None:
+                res["impersonation_by_label_sees_other_contents_than_the_database_holds"] = ip
             sv = section_views(db)
             if any(sv[k] != (after[k] is None) for k in sv):
                 res["DatabaseError_not_exactly_for_the_sections_that_are_not_loaded"] = [sv, {k: after[k] is None for k in sv}]
@@ -332,6 +365,10 @@ def judge(c, ir, mr):
                     "judged_by": "C11_refines"}
         if ri.get("accumulated_or_wrong"):
             return {"kind": "contents after a successful load differ from a fresh load of that file (accumulation?)", "why": "load %d" % (k + 1), "judged_by": "C11_no_accumulation"}
+        if ri.get("impersonation_by_label_sees_other_contents_than_the_database_holds"):
+            return {"kind": "impersonation by label draws from other contents than the database holds after the load (something remembered across loads)",
+                    "why": "load %d: [label, MTU drawn (None = DatabaseError), MTUs the database holds under that label] = %s" % (
+                        k + 1, ri["impersonation_by_label_sees_other_contents_than_the_database_holds"]), "judged_by": "C11_refines (a successful load replaces the previous contents)"}
         if ri.get("failed_load_changed_db"):
             return {"kind": "a failed load changed the loaded database", "why": "load %d" % (k + 1), "judged_by": "C11_failed_load_preserves"}
         ri = {k2: v2 for k2, v2 in ri.items() if k2 != "bytecode_level_race_in_reader"}    # outside the property's quantifier (see ASSUMPTIONS); counted in outcomes
